@@ -304,6 +304,35 @@ partial def nestsWhereFlat : Ty → Val → Bool
   | .array _ _ t, .arr (some xs) => xs.any (nestsWhereFlat t)
   | _, _ => false
 
+
+/-- two tagged fields no schema of the tree knows (a newer broker's): tag 1000 with three bytes, tag 70000 empty -/
+def unkTags : Bytes := Spec.uvar 1000 ++ Spec.uvar 3 ++ [1, 2, 3] ++ Spec.uvar 70000 ++ Spec.uvar 0
+
+mutual
+/-- the reference encoder, with `unkTags` added to the tagged-field buffer of EVERY flexible struct -/
+partial def encodeUnk : Ty → Val → Bytes
+  | .array c n t, .arr a =>
+    match a, n with
+    | none, true => if c then Spec.uvar 0 else Spec.sint 4 (-1)
+    | a, _ => let l := a.getD []
+      (if c then Spec.uvar (l.length + 1) else Spec.sint 4 l.length) ++ (l.map (encodeUnk t)).flatten
+  | .struct flex fs ids ts, .struct vs tvs =>
+    encodeUnkFields fs vs ++
+      (if flex then Spec.uvar (Spec.numTagged ts + 2) ++ Spec.encodeTagged ids ts tvs ++ unkTags else [])
+  | .unit flex, _ => if flex then Spec.uvar 2 ++ unkTags else []
+  | t, v => Spec.encode t v
+partial def encodeUnkFields : List Ty → List Val → Bytes
+  | t :: ts, v :: vs => (if t.zeroSize then [] else encodeUnk t v) ++ encodeUnkFields ts vs
+  | _, _ => []
+end
+
+/-- frames whose header tag buffer carries an unknown field as well -/
+def frameRequestUnk (apiKey version corr : Int) (clientID body : Bytes) : Bytes :=
+  Spec.frame (Spec.sint 2 apiKey ++ Spec.sint 2 version ++ Spec.sint 4 corr ++
+    (Spec.kString false true clientID ++ Spec.uvar 1 ++ Spec.uvar 900 ++ Spec.uvar 2 ++ [9, 9]) ++ body)
+def frameResponseUnk (corr : Int) (body : Bytes) : Bytes :=
+  Spec.frame (Spec.sint 4 corr ++ (Spec.uvar 1 ++ Spec.uvar 900 ++ Spec.uvar 2 ++ [9, 9]) ++ body)
+
 def stepMain (line : String) : String :=
   match line.splitOn " => " with
   | [req, impl] =>
@@ -328,7 +357,7 @@ def stepMain (line : String) : String :=
       | none => "bad-case"
       | some c =>
         let root : GoTy := .named c.m.root
-        if op == "enc" || op == "spec" then
+        if op == "enc" || op == "spec" || op == "specx" then
           match rest with
           | corr :: cid :: toks =>
             match corr.toInt?, ofHex cid, parseMsgText c.m toks with
@@ -344,6 +373,14 @@ def stepMain (line : String) : String :=
                   else Spec.frameResponse c.r.flexible corr (enc t v)
                 if op == "spec" then
                   answer ((if audited then "A" else "U") ++ toHex (frameOf rt Spec.encode)) true
+                else if op == "specx" then
+                  -- the same value as a NEWER peer would send it: unknown tagged fields in the header and in every struct
+                  if c.r.flexible then
+                    let v' := if audited then spliceTo rt v else v
+                    let fr := if c.m.isRequest then frameRequestUnk c.m.apiKey c.ver corr cid (encodeUnk rt v')
+                              else frameResponseUnk corr (encodeUnk rt v')
+                    answer ((if audited then "A" else "U") ++ toHex fr) true
+                  else answer "U" true
                 else
                   let bytes := if c.m.isRequest then frameRequest c.r.flexible c.m.apiKey c.ver corr cid c.r.ty v
                                else frameResponse c.r.flexible corr c.r.ty v
@@ -597,6 +634,31 @@ def compactOffenders (m : RawMsg) (s : RawStruct) (f : RawField) : List String :
 def compactLint : List String :=
   Gen.schemas.flatMap fun m => m.structs.flatMap fun s => s.fields.flatMap fun f => compactOffenders m s f
 
+
+/-- the payloads of the record sets of a value, in order -/
+partial def recordPayloads : Val → List Bytes
+  | .records (some p) => [p]
+  | .arr (some xs) => xs.flatMap recordPayloads
+  | .struct vs tvs => vs.flatMap recordPayloads ++ tvs.flatMap recordPayloads
+  | _ => []
+
+/-- `prodfmt <i> <ver> => <frame>`: a Produce request with RecordSet.Version left 0, as protocol.Conn.RoundTrip wrote it at
+version `ver`.  The frame is parsed under the golden schema of that version; every record set in it must be in the format Kafka's
+Produce request of that version carries (magic byte at offset 16: 0 or 1 below v3, 2 from v3 on); model = the magic that
+`Prepare` picks according to the regenerated `Gen.Routing.produceRecordVersion`. -/
+def stepProdFmt (i ver impl : String) : String :=
+  match getCase i ver, ofHex impl with
+  | some c, some raw =>
+    let (rt, _) := refTy c
+    match Spec.parseRequest c.r.flexible rt raw with
+    | none => answer "unparsable-under-the-golden-schema" false
+    | some (_, _, v) =>
+      let magics := (recordPayloads v).map fun p => (p.getD 16 255).toNat
+      let want : Nat := (KV.Gen.Routing.produceRecordVersion c.ver).toNat
+      let kafkaOk := !magics.isEmpty && magics.all fun m => if c.ver < 3 then m == 0 || m == 1 else m == 2
+      answer (if magics.all (· == want) && kafkaOk then impl else s!"record sets of magic {want}") (magics.all (· == want) && kafkaOk)
+  | _, _ => "bad-case"
+
 def step (line : String) : String :=
   match line.splitOn " => " with
   | [req, impl] =>
@@ -605,6 +667,7 @@ def step (line : String) : String :=
     | ["legread", i, ver, _name, body] => stepLegRead i ver body impl
     | ["lint", "compact"] => answer (",".intercalate compactLint) true
     | ["selver", i, b0, b1] => stepSelVer i b0 b1 impl
+    | ["prodfmt", i, ver] => stepProdFmt i ver impl
     | ["tver", k, a] => stepTVer k a impl
     | "marshal" :: j :: ver :: rest => stepMarshal "marshal" j ver rest impl
     | "unmarshal" :: j :: ver :: rest => stepMarshal "unmarshal" j ver rest impl
